@@ -552,8 +552,9 @@ def _reg_statement(form):
     return _ob
 
 
+STATEMENT_OBS = {}
 for _f in STATEMENT_FORMS:
-    _reg_statement(_f)
+    STATEMENT_OBS[_f] = _reg_statement(_f)
 
 
 @obligation("C01/variables-first", profiles=("dev",),
